@@ -21,7 +21,7 @@ except Exception:  # native replay without crosshair on the path
             return False
 
 
-COUNTS = {"entered": 0, "reached": 0, "known_hits": 0}
+COUNTS = {"entered": 0, "reached": 0, "known_hits": 0, "pruned": 0}
 EXPLAIN: list = []
 TWIN = False  # set by the worker for the reachability-twin run
 _KNOWN = None
@@ -59,6 +59,14 @@ def reached() -> bool:
     with NoTracing():
         COUNTS["reached"] += 1
         return TWIN
+
+
+def pruned() -> bool:
+    """the scenario ended early because the chosen event is not enabled in the current situation
+    (nothing to judge on this path); returns the value the harness should return."""
+    with NoTracing():
+        COUNTS["pruned"] += 1
+    return True
 
 
 def fail(why: str, signature: str | None = None) -> bool:
